@@ -124,7 +124,19 @@ class OptionsContainer(ObjectWithFields):
                     continue
             except KeyError:
                 pass
-            destination[opt.cgi_name] = opt.to_string(value)
+            destination[opt.cgi_name] = self._to_text(opt, value)
+
+    @staticmethod
+    def _to_text(opt: DashOption, value: Any) -> Any:
+        """
+        The text of an option value. An option that has been set to None
+        (when its default is something else) is spelled 'none', the form
+        every from_string function accepts.
+        """
+        text = opt.to_string(value)
+        if text is None:
+            return 'none'
+        return text
 
     def generate_cgi_parameters(self,
                                 destination: dict[str, str] | None = None,
@@ -180,7 +192,7 @@ class OptionsContainer(ObjectWithFields):
             opt: DashOption = self._parameter_map[key]
             if use is not None and (opt.usage & use) == 0:
                 continue
-            destination[getattr(opt, attr_name)] = opt.to_string(value)
+            destination[getattr(opt, attr_name)] = self._to_text(opt, value)
         return destination
 
     def remove_default_values(self, defaults: Optional["OptionsContainer"] = None) -> JsonObject:
